@@ -90,45 +90,56 @@ def encodeHeader (h : Header) : Bytes :=
 
 def strOf (bs : Bytes) : String := String.ofList (bs.map Char.ofNat)
 
-/-- one path segment and the bytes after it -/
-def decodeSeg (bs : Bytes) : Option (Seg × Bytes) :=
+/-- the number of bytes the first path segment occupies, from its type byte (and length byte) -/
+def segSize (bs : Bytes) : Option Nat :=
   match bs with
   | [] => none
   | t :: r =>
     -- 8-bit logical segments: type, value
-    if t = Generated.seg_class then (u8 r).map fun (v, r') => (.cls v, r')
-    else if t = Generated.seg_instance then (u8 r).map fun (v, r') => (.ins v, r')
-    else if t = Generated.seg_attribute then (u8 r).map fun (v, r') => (.attr v, r')
-    else if t = Generated.seg_element then (u8 r).map fun (v, r') => (.elem v, r')
-    else if t = Generated.seg_connection then (u8 r).map fun (_, r') => (.other, r')
+    if t = Generated.seg_class ∨ t = Generated.seg_instance ∨ t = Generated.seg_attribute
+        ∨ t = Generated.seg_element ∨ t = Generated.seg_connection then some 2
     -- 16-bit: type, pad, value
-    else if t = Generated.seg_class + 1 then (u8 r).bind fun (_, r1) => (u16 r1).map fun (v, r') => (.cls v, r')
-    else if t = Generated.seg_instance + 1 then (u8 r).bind fun (_, r1) => (u16 r1).map fun (v, r') => (.ins v, r')
-    else if t = Generated.seg_attribute + 1 then (u8 r).bind fun (_, r1) => (u16 r1).map fun (v, r') => (.attr v, r')
-    else if t = Generated.seg_element + 1 then (u8 r).bind fun (_, r1) => (u16 r1).map fun (v, r') => (.elem v, r')
-    else if t = Generated.seg_connection + 1 then (u8 r).bind fun (_, r1) => (u16 r1).map fun (_, r') => (.other, r')
-    -- 32-bit element
-    else if t = Generated.seg_element + 2 then (u8 r).bind fun (_, r1) => (u32 r1).map fun (v, r') => (.elem v, r')
+    else if t = Generated.seg_class + 1 ∨ t = Generated.seg_instance + 1 ∨ t = Generated.seg_attribute + 1
+        ∨ t = Generated.seg_element + 1 ∨ t = Generated.seg_connection + 1 then some 4
+    -- 32-bit element: type, pad, value
+    else if t = Generated.seg_element + 2 then some 6
     -- ANSI extended symbolic: type, length, bytes, pad to even
     else if t = Generated.seg_symbolic then
       match r with
       | [] => none
-      | n :: r1 =>
-        if n = 0 then none
-        else if r1.length < n + n % 2 then none
-        else some (.symbolic (strOf (r1.take n)), r1.drop (n + n % 2))
+      | n :: _ => if n = 0 then none else some (2 + n + n % 2)
     -- port segments: 0x01-0x0e port+link, 0x0f extended port, 0x11-0x1f with a link address string
-    else if 1 ≤ t ∧ t ≤ 14 then (u8 r).map fun (_, r') => (.other, r')
-    else if t = 15 then (takeN 3 r).map fun (_, r') => (.other, r')
+    else if 1 ≤ t ∧ t ≤ 14 then some 2
+    else if t = 15 then some 4
     else if 17 ≤ t ∧ t ≤ 31 then
       match r with
       | [] => none
-      | n :: r1 =>
-        let ext := if t = 31 then 2 else 0
-        if n = 0 then none
-        else if r1.length < ext + n + n % 2 then none
-        else some (.other, r1.drop (ext + n + n % 2))
+      | n :: _ => if n = 0 then none else some (2 + (if t = 31 then 2 else 0) + n + n % 2)
     else none
+
+/-- the segment held by exactly the bytes of one segment -/
+def segOf (sb : Bytes) : Seg :=
+  let t := sb.getD 0 0
+  let v8 := sb.getD 1 0
+  let v16 := sb.getD 2 0 + 256 * sb.getD 3 0
+  let v32 := v16 + 65536 * sb.getD 4 0 + 16777216 * sb.getD 5 0
+  if t = Generated.seg_class then .cls v8
+  else if t = Generated.seg_instance then .ins v8
+  else if t = Generated.seg_attribute then .attr v8
+  else if t = Generated.seg_element then .elem v8
+  else if t = Generated.seg_class + 1 then .cls v16
+  else if t = Generated.seg_instance + 1 then .ins v16
+  else if t = Generated.seg_attribute + 1 then .attr v16
+  else if t = Generated.seg_element + 1 then .elem v16
+  else if t = Generated.seg_element + 2 then .elem v32
+  else if t = Generated.seg_symbolic then .symbolic (strOf ((sb.drop 2).take v8))
+  else .other
+
+/-- one path segment and the bytes after it -/
+def decodeSeg (bs : Bytes) : Option (Seg × Bytes) :=
+  match segSize bs with
+  | none => none
+  | some n => if bs.length < n then none else some (segOf (bs.take n), bs.drop n)
 
 /-- segments until the bytes are exhausted (every segment takes at least 2 bytes: fuel = length suffices) -/
 def decodeSegs : Nat → Bytes → Option (List Seg)
